@@ -151,8 +151,8 @@ type replayResult struct {
 	Outcome    string
 	KnownFails []string
 	Observed   []string
-	Reached  []string
-	Raw      string
+	Reached    []string
+	Raw        string
 }
 
 type tapeFile struct {
